@@ -29,16 +29,20 @@ class _FakeDT:
 
 
 _installed = False
+CLOCK = [1000.0]          # what time.time() returns inside gunicorn.workers.gthread (harnesses may advance it)
 
 
 def install_clock():
-    """datetime.now() in the worker modules and util.http_date() -> constants."""
+    """datetime.now() in the worker modules, util.http_date() and gthread's time.time() -> controlled values.
+    (CrossHair ships a contract-based model of time.time that makes paths inconclusive; time is an explicit
+    harness input wherever it matters.)"""
     global _installed
     if _installed:
         return
     for m in (_sync, _gthread, _basync, _base):
         m.datetime = _FakeDT
     _util.http_date = lambda *a: "Thu, 01 Jan 2026 00:00:00 GMT"
+    _gthread.time = types.SimpleNamespace(time=lambda: CLOCK[0], sleep=lambda s: None)
     _installed = True
 
 
@@ -71,10 +75,29 @@ def install_fileos():
     _wsgi.os = FILEOS
 
 
+_CFG_CACHE = {}
+
+
+def _untraced():
+    """Config construction is concrete, read-only afterwards and slow under CrossHair's tracer: build it natively."""
+    from engine.harness_api import SYMBOLIC
+    if SYMBOLIC:
+        from crosshair.tracers import NoTracing
+        return NoTracing()
+    return contextlib.nullcontext()
+
+
 def make_cfg(**settings):
-    cfg = Config()
-    for k, v in settings.items():
-        cfg.set(k, v)
+    # the whole lookup-or-build runs outside the tracer: a cache hit and a cache miss must look the same to CrossHair
+    # (it checks that re-executions take the same decisions)
+    with _untraced():
+        key = repr(sorted(settings.items()))
+        cfg = _CFG_CACHE.get(key)
+        if cfg is None:
+            cfg = Config()
+            for k, v in settings.items():
+                cfg.set(k, v)
+            _CFG_CACHE[key] = cfg
     return cfg
 
 
@@ -143,11 +166,15 @@ class Poller:
         self.order = []
         self.closed = False
 
+    on_register = None           # harness hook: the poller thread may see the socket readable right away
+
     def register(self, s, ev, data):
         if s in self.reg:
             raise KeyError("already registered")
         self.reg[s] = data
         self.order.append(s)
+        if self.on_register:
+            self.on_register(s)
 
     def unregister(self, s):
         if s not in self.reg:
